@@ -16,7 +16,7 @@ MANIFEST = {
     "design_ref": "DESIGN.md §5 C06",
 }
 EXPLANATION = MANIFEST["level_text"]
-TRUSTED = ["pyvc VC generator (ordered dicts as item sequences, sets as membership predicates)", "z3 5.1.0 / cvc5 1.0.3", "pyarrow Field/Schema attribute semantics"]
+TRUSTED = ["pyvc VC generator (ordered dicts as item sequences, sets as membership predicates)", "z3 5.1.0 / cvc5 1.4.0", "pyarrow Field/Schema attribute semantics"]
 ASSUMPTIONS = [
     "Arrow types are opaque values with equality; field.name/type/nullable are pure attribute reads",
     "_is_optional_type(annotation) is a pure function of the annotation (modelled uninterpreted)",
@@ -82,7 +82,71 @@ def replay_signature(inputs, ob):
     return ReplayResult(accepted and not want, f"accepted={accepted} keys_ok={ok_keys} schema_ok={ok_schema}")
 
 
-@unit("C06.O1 _validate_call_signature", targets=["vgi_rpc/rpc/_wire.py::_validate_call_signature"], replay=replay_signature, min_obligations=6)
+def search_signature_sequences(ob, seed=0):
+    """Bounded native search (used when the unit leaves the engine's reach or loses its proof): a real RpcServer on one
+    connection is first sent a conforming request, then requests whose columns are retyped within the same Arrow type
+    family, across families, renamed, reordered, dropped, added or nullability-flipped.  The method may run only for
+    the conforming ones - also when the server has seen a conforming request of that method before."""
+    import contextlib
+    from io import BytesIO
+    from typing import Protocol
+
+    import pyarrow as pa
+    from vgi_rpc.metadata import REQUEST_VERSION, REQUEST_VERSION_KEY, RPC_METHOD_KEY
+    from vgi_rpc.rpc import PipeTransport, RpcServer, rpc_methods
+
+    class Svc(Protocol):
+        def f(self, xs: list[int], name: str, n: int) -> int: ...
+
+    class Impl:
+        def __init__(self):
+            self.calls = []
+
+        def f(self, xs, name, n):
+            self.calls.append((xs, name, n))
+            return 0
+
+    declared = rpc_methods(Svc)["f"].params_schema
+    good = {"xs": [[1, 2]], "name": ["a"], "n": [3]}
+
+    def req(schema, data):
+        buf = BytesIO()
+        batch = pa.RecordBatch.from_pydict(data, schema=schema)
+        with pa.ipc.new_stream(buf, schema) as w:
+            w.write_batch(batch, custom_metadata=pa.KeyValueMetadata({RPC_METHOD_KEY: b"f", REQUEST_VERSION_KEY: REQUEST_VERSION}))
+        return buf.getvalue()
+
+    def with_field(i, field):
+        return pa.schema([field if j == i else declared.field(j) for j in range(len(declared))])
+
+    variants = {
+        "list<double> for list<int64>": (with_field(0, pa.field("xs", pa.list_(pa.float64()), nullable=declared.field(0).nullable)), {"xs": [[1.5]], "name": ["a"], "n": [3]}),
+        "list<int32> for list<int64>": (with_field(0, pa.field("xs", pa.list_(pa.int32()), nullable=declared.field(0).nullable)), good),
+        "large_string for string": (with_field(1, pa.field("name", pa.large_string(), nullable=declared.field(1).nullable)), good),
+        "int32 for int64": (with_field(2, pa.field("n", pa.int32(), nullable=declared.field(2).nullable)), good),
+        "nullability flipped": (with_field(2, pa.field("n", pa.int64(), nullable=not declared.field(2).nullable)), good),
+        "renamed column": (with_field(2, pa.field("m", pa.int64(), nullable=declared.field(2).nullable)), {"xs": [[1]], "name": ["a"], "m": [3]}),
+        "reordered columns": (pa.schema([declared.field(1), declared.field(0), declared.field(2)]), good),
+        "missing column": (pa.schema([declared.field(0), declared.field(1)]), {"xs": [[1]], "name": ["a"]}),
+        "extra column": (pa.schema([*declared, pa.field("z", pa.int64())]), {**good, "z": [1]}),
+    }
+    for warm in (False, True):
+        for label, (schema, data) in variants.items():
+            impl = Impl()
+            server = RpcServer(Svc, impl)
+            stream = (req(declared, good) if warm else b"") + req(schema, data)
+            transport = PipeTransport(BytesIO(stream), BytesIO())
+            with contextlib.suppress(Exception):
+                if warm:
+                    server.serve_one(transport)
+                server.serve_one(transport)
+            want = 1 if warm else 0
+            if len(impl.calls) != want:
+                return {"variant": label, "after_a_conforming_call": warm}, ReplayResult(True, f"request with {label}{' sent after a conforming request on the same server' if warm else ''}: the method ran {len(impl.calls) - want} time(s) on it (arguments {impl.calls[-1]!r})")
+    return None
+
+
+@unit("C06.O1 _validate_call_signature", targets=["vgi_rpc/rpc/_wire.py::_validate_call_signature"], replay=replay_signature, search=search_signature_sequences, min_obligations=6)
 def call_signature(S):
     kwargs = SODict.fresh("kwargs", StrShape, VAL)
     ptypes = SODict.fresh("ptypes", StrShape, HINT)
@@ -260,3 +324,76 @@ def recorded_schema(S):
         S.canary("O6.canary.arguments_never_come_from_a_shm_payload", SBool(z3.BoolVal(not any(e[1] is info["payload"] for e in reads))))
 
     K.read_request(S, extra=extra)
+
+
+# ------------------------------------------------------------------------------------------
+# O7 enum-typed parameters: the request carries the member's *name*; what reaches the method is a member of the declared
+# enum - an unknown name is a rejected request (the dispatch sites answer it before the method runs: O3-O5, C05.O3),
+# for required, optional and Annotated declarations alike.
+# ------------------------------------------------------------------------------------------
+
+import enum as _enum  # noqa: E402
+from typing import Annotated as _Annotated  # noqa: E402
+from typing import Optional as _Optional  # noqa: E402
+
+
+class Mode(_enum.Enum):
+    FAST = "f"
+    SLOW = "s"
+    TURBO = "f"  # an alias: value differs from name, two names share a value
+
+
+ENUM_HINTS = {
+    "Mode": Mode,
+    "Mode | None": Mode | None,
+    "Optional[Mode]": _Optional[Mode],
+    "Annotated[Mode, 'doc']": _Annotated[Mode, "doc"],
+    "Annotated[Mode | None, 'doc']": _Annotated[Mode | None, "doc"],
+}
+
+
+def replay_enum(inputs, ob):
+    hint = ENUM_HINTS.get(inputs.get("hint", "Mode"), Mode)
+    v = inputs.get("value", "NOPE")
+    v = v if isinstance(v, str) else "NOPE"
+    kwargs = {"mode": v}
+    try:
+        wire._deserialize_params(kwargs, {"mode": hint})
+        got = kwargs["mode"]
+        bad = not isinstance(got, Mode) or got.name not in (v, Mode[v].name if v in Mode.__members__ else "")
+        return ReplayResult(bad, f"mode: {inputs.get('hint')} = {v!r}: accepted, the method would receive {got!r}")
+    except (KeyError, TypeError, ValueError) as e:
+        return ReplayResult(v in Mode.__members__, f"mode: {inputs.get('hint')} = {v!r}: rejected with {type(e).__name__}")
+    except Exception as e:  # noqa: BLE001
+        return ReplayResult(True, f"mode: {inputs.get('hint')} = {v!r}: raised {type(e).__name__}: {e}")
+
+
+def search_enum(ob, seed=0):
+    for h in ENUM_HINTS:
+        for v in ("FAST", "SLOW", "TURBO", "NOPE", "fast", "f", ""):
+            rr = replay_enum({"hint": h, "value": v}, ob)
+            if rr.confirmed:
+                return {"hint": h, "value": v}, rr
+    return None
+
+
+@unit("C06.O7 _deserialize_params: an enum parameter reaches the method as a member of the declared enum, an unknown name is rejected", targets=["vgi_rpc/rpc/_wire.py::_deserialize_params", "vgi_rpc/rpc/_wire.py::_deserialize_value"], replay=replay_enum, search=search_enum, min_obligations=10)
+def enum_params(S):
+    names = list(ENUM_HINTS)
+    hname = names[S.choose(len(names))]
+    hint = ENUM_HINTS[hname]
+    v = S.str("value")
+    S.inputs.update({"hint": hname})
+    kwargs = {"mode": v}
+    S.inline.update({"_deserialize_value", "_is_optional_type", "_unwrap_annotated"})
+    out = S.outcome(wire._deserialize_params, kwargs, {"mode": hint})
+    known = Or(*[eq(v, nm) for nm in Mode.__members__])
+    if out.raised:
+        S.oblige("O7.rejects_only_an_unknown_member_name", Not(known), kind="raises", witness=hname)
+        S.oblige("O7.rejection_is_an_ordinary_exception_the_dispatch_sites_answer", exc_is(out.exc, KeyError, TypeError, ValueError), kind="raises", witness=hname)
+        return
+    got = kwargs["mode"]
+    S.oblige("O7.the_method_receives_a_member_of_the_declared_enum", isinstance(got, Mode), kind="post", witness=hname)
+    if isinstance(got, Mode):
+        S.oblige("O7.the_member_is_the_one_named_in_the_request", eq(v, got.name) if got.name in Mode.__members__ and Mode[got.name] is got and not any(Mode[n] is got and n != got.name for n in Mode.__members__) else Or(*[eq(v, n) for n in Mode.__members__ if Mode[n] is got]), witness=hname)
+    S.canary("O7.canary.every_name_is_accepted", SBool(z3.BoolVal(False)))
